@@ -67,9 +67,9 @@ Proof.
   repeat first [fr0_h1 | fr1 | apply rel0_upd; [intro; reflexivity|]].
 Qed.
 
-Lemma load_dump_relB e s s0 : static (cf e) -> rel KB s s0 -> rel KB s (load_dump e true s0).
+Lemma load_dump_relB e s s0 : dyn (cf e) = false -> rel KB s s0 -> rel KB s (load_dump e true s0).
 Proof.
-  intros [Hd _] H. unfold load_dump. rewrite Hd. cbv zeta.
+  intros Hd H. unfold load_dump. rewrite Hd. cbv zeta.
   destruct (stored (sr (nd s0))) as [[sn|]|]; auto.
   cbn [andb]. destruct (eidx (s_e1 sn) <=? applied (nd s0)) eqn:Eb.
   { eapply rel_trans; [exact H|]. simpl. unfold sameB, rinv. cbn. split; [reflexivity|]. auto. }
@@ -158,9 +158,9 @@ Proof.
   - fr0.
 Qed.
 
-Lemma check_one_relB e c cbk s s0 : static (cf e) -> rel KB s s0 -> rel KB s (check_one e c cbk s0).
+Lemma check_one_relB e c cbk s s0 : dyn (cf e) = false -> rel KB s s0 -> rel KB s (check_one e c cbk s0).
 Proof.
-  intros [Hd _] H. unfold check_one. rewrite Hd. cbv zeta. frB.
+  intros Hd H. unfold check_one. rewrite Hd. cbv zeta. frB.
 Qed.
 
 Lemma check_loop_rel k fuel e start s s0 :
@@ -178,15 +178,28 @@ Qed.
 Lemma check_commands_rel0 e s s0 : rel K0 s s0 -> rel K0 s (check_commands e s0).
 Proof. intros H. unfold check_commands. apply check_loop_rel; auto. intros; apply check_one_rel0; auto. Qed.
 
-Lemma check_commands_relB e s s0 : static (cf e) -> rel KB s s0 -> rel KB s (check_commands e s0).
+Lemma check_commands_relB e s s0 : dyn (cf e) = false -> rel KB s s0 -> rel KB s (check_commands e s0).
 Proof. intros St H. unfold check_commands. apply check_loop_rel; auto. intros; apply check_one_relB; auto. Qed.
 
 (* ---------- tick_load ---------- *)
 Lemma tick_load_rel0 e s s0 : rel K0 s s0 -> rel K0 s (tick_load e s0).
 Proof. intros H. unfold tick_load. cbv zeta. fr0; apply load_dump_rel0; auto. Qed.
 
-Lemma tick_load_relB e s s0 : static (cf e) -> rel KB s s0 -> rel KB s (tick_load e s0).
-Proof. intros [_ Hf] H. unfold tick_load. rewrite Hf, andb_false_r. cbv zeta. frB. Qed.
+(* the first tick loads the dump file, if the configuration names one: nothing to load unless a dump was
+   stored before the first tick (in the code the load precedes the first poll of the network) *)
+Definition tickp (e : env) (x : node) : Prop :=
+  need_load x && file_dump (cf e) = true -> stored (sr x) = None.
+
+Lemma tickp_static e x : file_dump (cf e) = false -> tickp e x.
+Proof. intros Hf H. rewrite Hf, andb_false_r in H. discriminate. Qed.
+
+Lemma tick_load_relB e s s0 : tickp e (nd s0) -> rel KB s s0 -> rel KB s (tick_load e s0).
+Proof.
+  intros Hp H. unfold tick_load.
+  destruct (need_load (nd s0) && file_dump (cf e)) eqn:E.
+  - unfold load_dump. rewrite (Hp E). cbv zeta. frB.
+  - cbv zeta. frB.
+Qed.
 
 (* ---------- append_entries ---------- *)
 Lemma ae_regular_rel0 e from c prev new s s0 : rel K0 s s0 -> rel K0 s (ae_regular e from c prev new s0).
@@ -196,7 +209,7 @@ Proof.
 Qed.
 
 Lemma ae_regular_relB e from c prev new s s0 :
-  static (cf e) -> rel KB s s0 -> rel KB s (ae_regular e from c prev new s0).
+  dyn (cf e) = false -> rel KB s s0 -> rel KB s (ae_regular e from c prev new s0).
 Proof.
-  intros [Hd _] H. unfold ae_regular. rewrite Hd. cbv zeta. frB.
+  intros Hd H. unfold ae_regular. rewrite Hd. cbv zeta. frB.
 Qed.
